@@ -29,7 +29,7 @@ DOMAINS = {
     "kwargs_iter": [("[{'a':1},{'a':2}]", L("[{'a':1},{'a':2}]")), ("[]", L("[]"))],
     "num": INTS, "num_concurrent": [("0", 0), ("1", 1), ("2", 2)], "value": INTS, "number": INTS,
     "group_name": [("g1", "g1"), ("gx", "gx"), ("a\tb", "a\tb")], "msg": [("hello", "hello")], "label": [("lbl", "lbl")],
-    "f": INTS, "el": [("kg", "kg")],
+    "f": INTS, "el": [("kg", "kg")], "level": INTS, "limit": INTS,
     "task_ids": [([], []), (["0"], [0]), (["0", "1"], [0, 1]), (["5"], [5]), (["0", "0"], [0, 0])],
     "group_names": [(["g1"], ["g1"]), (["g1", "start-group-0"], ["g1", "start-group-0"]), (["nosuch"], ["nosuch"]),
                     ([], []), (["", "g1"], ["", "g1"])],
